@@ -10,6 +10,7 @@ import (
 	"fmt"
 	"sort"
 	"strings"
+	"time"
 
 	"github.com/hashicorp/eventlogger"
 	"verif/harness/internal/nodes"
@@ -17,21 +18,21 @@ import (
 
 // Op is one registry call, pure data (JSON-serialisable for replays).
 type Op struct {
-	K        string   `json:"k"` // regnode regpipe rmpipe rpan rmnode thr thrsinks reopen
-	N        string   `json:"n,omitempty"`
-	NT       int      `json:"nt,omitempty"`
-	Pol      int      `json:"pol,omitempty"` // 0 default, 1 allow, 2 deny, 3 invalid
-	P        string   `json:"p,omitempty"`
-	ET       string   `json:"et,omitempty"`
-	IDs      []string `json:"ids,omitempty"`
-	CloseErr bool     `json:"closeErr,omitempty"`
-	SinkRet  bool     `json:"sinkRet,omitempty"` // sink returns the event instead of nil
-	V        int      `json:"v,omitempty"`
-	Reuse    bool     `json:"reuse,omitempty"`   // regnode: register the SAME node object that is currently registered under the id
-	Shape    int      `json:"shape,omitempty"`   // regnode: 0 plain *N, 1 Unwrapper-only wrapper, 2 wrapper that is Closer and Unwrapper, 3 uncomparable value node, 4 twelve Unwrap-only decorators around the node
-	CtxDone  bool     `json:"ctxDone,omitempty"` // rpan / rmnode: call with an already cancelled context
-	Dress    int      `json:"dress,omitempty"`   // regnode / regpipe: how the option list is dressed up (the effective policy stays Pol): 1 a nil option first, 2 the opposite policy first (last one wins), 3 an option of the OTHER kind (node vs pipeline) with the opposite policy appended, 4 an INVALID policy value of the same kind first (the call must be rejected whatever follows)
-	CloseKind int     `json:"closeKind,omitempty"` // regnode with CloseErr: 0 plain error, 1 an error wrapping context.Canceled, 2 context.DeadlineExceeded itself
+	K         string   `json:"k"` // regnode regpipe rmpipe rpan rmnode thr thrsinks reopen
+	N         string   `json:"n,omitempty"`
+	NT        int      `json:"nt,omitempty"`
+	Pol       int      `json:"pol,omitempty"` // 0 default, 1 allow, 2 deny, 3 invalid
+	P         string   `json:"p,omitempty"`
+	ET        string   `json:"et,omitempty"`
+	IDs       []string `json:"ids,omitempty"`
+	CloseErr  bool     `json:"closeErr,omitempty"`
+	SinkRet   bool     `json:"sinkRet,omitempty"` // sink returns the event instead of nil
+	V         int      `json:"v,omitempty"`
+	Reuse     bool     `json:"reuse,omitempty"`     // regnode: register the SAME node object that is currently registered under the id
+	Shape     int      `json:"shape,omitempty"`     // regnode: 0 plain *N, 1 Unwrapper-only wrapper, 2 wrapper that is Closer and Unwrapper, 3 uncomparable value node, 4 twelve Unwrap-only decorators around the node
+	CtxDone   bool     `json:"ctxDone,omitempty"`   // rpan / rmnode: call with an already cancelled context
+	Dress     int      `json:"dress,omitempty"`     // regnode / regpipe: how the option list is dressed up (the effective policy stays Pol): 1 a nil option first, 2 the opposite policy first (last one wins), 3 an option of the OTHER kind (node vs pipeline) with the opposite policy appended, 4 an INVALID policy value of the same kind first (the call must be rejected whatever follows)
+	CloseKind int      `json:"closeKind,omitempty"` // regnode with CloseErr: 0 plain error, 1 an error wrapping context.Canceled, 2 context.DeadlineExceeded itself
 }
 
 // EffPol is the policy the specification sees: an invalid value anywhere in the option list makes the call invalid.
@@ -83,6 +84,10 @@ func (o Op) String() string {
 		return "Reopen"
 	case "newbroker":
 		return fmt.Sprintf("NewBroker(nodeDeny=%v,pipelineDeny=%v)", o.V&1 != 0, o.V&2 != 0)
+	case "stoptime":
+		if o.V >= 0 && o.V < len(StopTimes) {
+			return "StopTimeAt(" + StopTimes[o.V].Format(time.RFC3339Nano) + ")"
+		}
 	}
 	return o.K
 }
@@ -90,6 +95,9 @@ func (o Op) String() string {
 func dressName(d int) string {
 	return [...]string{"", ",nil-option-first", ",opposite-policy-first", ",other-kind-option-last", ",invalid-policy-first"}[d%5]
 }
+
+// StopTimes: instants the Broker's clock may be stopped at (set by the generators' package).
+var StopTimes []time.Time
 
 func TypeName(nt int) string {
 	switch eventlogger.NodeType(nt) {
@@ -306,6 +314,10 @@ func (x *Exec) Apply(op Op) Result {
 		r.Err = x.B.SetSuccessThresholdSinks(eventlogger.EventType(op.ET), op.V)
 	case "reopen":
 		r.Err = x.B.Reopen(ctx)
+	case "stoptime":
+		if op.V >= 0 && op.V < len(StopTimes) {
+			x.B.StopTimeAt(StopTimes[op.V])
+		}
 	}
 	return r
 }
